@@ -175,6 +175,67 @@ def explore_api(ctx, ms, scheduler, n_threads, combos, max_pre, limit, traces):
     return total
 
 
+def meta_ops(mod):
+    """Operations whose result depends on XmlMeta / XmlVar state computed lazily or read in several steps."""
+    from xsdata.formats.dataclass.parsers import DictDecoder
+    from xsdata.formats.dataclass.serializers import DictEncoder, JsonSerializer
+
+    ta = mod.TextAttr(value="t", a=1, b="x")
+    sh = mod.Shuffled(e1="p", k=3, e2=4, extra={"m": "n"}, t=mod.TextAttr(value="u", a=2))
+    cfg = SerializerConfig(xml_declaration=False)
+    ta_json = '{"value": "t", "a": 1, "b": "x"}'
+    sh_json = '{"e1": "p", "k": 3, "rest": [], "e2": 4, "extra": {"m": "n"}, "t": {"value": "u", "a": 2, "b": null}}'
+    return {
+        "enc_text": lambda c: list(DictEncoder(context=c).encode(ta).items()),
+        "enc_shuffled": lambda c: JsonSerializer(context=c).render(sh),
+        "dec_text_noclass": lambda c: JsonParser(context=c).from_string(ta_json),
+        "dec_shuffled_noclass": lambda c: JsonParser(context=c).from_string(sh_json),
+        "dec_text": lambda c: DictDecoder(context=c).decode({"value": "t", "b": "x"}, mod.TextAttr),
+        "by_fields": lambda c: getattr(c.find_type_by_fields({"value", "a"}), "__name__", None),
+        "all_vars": lambda c: [[v.name for v in c.build(k).get_all_vars()] for k in (mod.TextAttr, mod.Shuffled)],
+        "xml_text": lambda c: XmlSerializer(context=c, config=cfg).render(ta),
+        "xml_shuffled": lambda c: XmlParser(context=c).from_string(
+            '<Shuffled xmlns="urn:m" k="3" m="n"><e1>p</e1><e2>4</e2><t a="2">u</t></Shuffled>', mod.Shuffled),
+    }
+
+
+def explore_meta(ctx, max_pre, limit):
+    """Two threads on one COLD context: every access to the shared XmlMeta / XmlVar objects is a yield point."""
+    mod = cb.meta_package()
+    ms = cb.meta_markers()
+    ctx.extra["meta_yield_lines"] = sum(len(t) for t in ms.by_code.values())
+    scheduler = sched.Scheduler(ms, timeout=20.0)
+    ops = meta_ops(mod)
+
+    def fresh():
+        from xsdata.formats.dataclass.context import XmlContext
+
+        return XmlContext(models_package=mod.__name__)
+
+    alone = {name: ("ok", fn(fresh())) for name, fn in ops.items()}
+    names = list(ops)
+    total = 0
+    for i, a in enumerate(names):
+        for b in names[i:]:
+            def run_once(prefix, a=a, b=b):
+                xctx = fresh()
+                return scheduler.run([lambda: ops[a](xctx), lambda: ops[b](xctx)], sched.choices(prefix))
+
+            for r in sched.explore(run_once, max_pre, limit):
+                total += 1
+                ctx.case(json.dumps(("meta", a, b, [d.chosen for d in r.decisions])))
+                if r.diverged:
+                    ctx.violation(f"concurrent run did not finish: {r.diverged}", {"meta": [a, b], "choices": [d.chosen for d in r.decisions]})
+                    continue
+                for t, name in enumerate((a, b)):
+                    got = r.results.get(t)
+                    if got is None or not _res_eq(got, alone[name]):
+                        ctx.violation(
+                            f"{name} on a shared cold context (next to {(a, b)[1 - t]}) returned {_show(got) if got else None}, alone it returns {_show(alone[name])}",
+                            {"meta": [a, b], "choices": [d.chosen for d in r.decisions], "trace": r.trace[:60]})
+    return total
+
+
 def validate_traces(ctx, traces, label):
     traces = [t for t in traces if all(p for p in t["progs"])]
     if not traces:
@@ -273,6 +334,8 @@ def run(ctx):
     # seeded random schedules with more threads
     n += explore_random(ctx, ms, scheduler, ctx.pick(30, 400), traces)
     ctx.extra["api_interleavings_explored"] = n
+    # 3b. the shared binding metadata itself
+    ctx.extra["meta_interleavings_explored"] = explore_meta(ctx, 1, ctx.pick(40, 400))
     for i in range(0, len(traces), 2000):
         validate_traces(ctx, traces[i:i + 2000], f"Trace_ContextT batch {i // 2000}")
 
@@ -319,6 +382,18 @@ def replay(ctx, doc):
     scheduler = sched.Scheduler(ms)
     if "case" in case:
         replay_schedule(ctx, ms, scheduler, case["case"])
+    elif "meta" in case:
+        from xsdata.formats.dataclass.context import XmlContext
+
+        mod = cb.meta_package()
+        ops = meta_ops(mod)
+        a, b = case["meta"]
+        xctx = XmlContext(models_package=mod.__name__)
+        r = sched.Scheduler(cb.meta_markers()).run([lambda: ops[a](xctx), lambda: ops[b](xctx)], sched.choices(case.get("choices", [])))
+        for t, name in enumerate((a, b)):
+            alone = ("ok", ops[name](XmlContext(models_package=mod.__name__)))
+            if not _res_eq(r.results.get(t), alone):
+                ctx.violation(f"{name}: {_show(r.results.get(t))} vs alone {_show(alone)}", case)
     else:
         mod = cb.package()
         ops = api_ops(mod)
